@@ -425,7 +425,10 @@ func (c *core) checkFastForward(block *hg.Block, frame *hg.Frame) error {
 		return err
 	}
 
-	// Check Frame Hash
+	// Check Frame Hash (the canonical encoder must be able to encode the Frame)
+	if err := frame.ValidateText(); err != nil {
+		return err
+	}
 	frameHash, err := frame.Hash()
 	if err != nil {
 		return err
